@@ -205,6 +205,80 @@ def h_order(ctx: Any, code: str, n: int, script: str, stacks: Any, deck: str = '
     ctx.cover('done')
 
 
+def h_partial_show(ctx: Any) -> None:
+    """cash game, final-street showdown, real evaluator: a player tables only the card(s) he needs; the engine's
+    hand killing must not cost him the pot, and kill_hand(i) is accepted exactly for the hands it marked."""
+    import warnings
+    from pokerkit.state import Automation
+    C.set_deck_order('identity')
+    warnings.simplefilter('ignore')
+    autos = tuple(a for a in Automation if a not in (Automation.HOLE_DEALING, Automation.BOARD_DEALING,
+                                                     Automation.CARD_BURNING, Automation.HOLE_CARDS_SHOWING_OR_MUCKING,
+                                                     Automation.HAND_KILLING))
+    st = C.make_state('NT', dict(n=2, stacks=(50, 50), blinds=(1, 2), min_bet=2, automations=autos, mode=Mode.CASH_GAME))
+    holes = [('Ac', '7d'), ('Kc', 'Kh'), ('2h', '3h')]
+    h0 = holes[ctx.choice('h0', 2)]
+    h1 = holes[1 if h0 == holes[0] else 2]
+    boards = ['2c5c9cJc8s', 'QcTc4c3cKd']
+    board = boards[ctx.choice('board', 2)]
+    st.deal_hole(''.join(h0), 0)
+    st.deal_hole(''.join(h1), 1)
+    k = 0
+    while st.status and (st.actor_index is not None or st.can_burn_card() or st.can_deal_board()):
+        if st.can_burn_card():
+            st.burn_card('??')
+        elif st.can_deal_board():
+            need = st.board_dealing_count
+            st.deal_board(board[2 * k:2 * (k + need)])
+            k += need
+        else:
+            st.check_or_call()
+    # reference: everybody tables everything
+    import copy
+    ref = copy.deepcopy(st)
+    while ref.status:
+        if ref.showdown_index is not None:
+            ref.show_or_muck_hole_cards(True)
+        elif ref.can_kill_hand():
+            ref.kill_hand()
+        else:
+            ctx.fail('reference-stuck')
+    # the run under test: the first to show tables only his first card when that is allowed
+    first = True
+    while st.status:
+        if st.showdown_index is not None:
+            i = st.showdown_index
+            part = tuple(st.hole_cards[i][:1])
+            if first and ctx.flag('partial') and st.can_show_or_muck_hole_cards(part):
+                st.show_or_muck_hole_cards(part)
+                ctx.cover('partial-show')
+            else:
+                st.show_or_muck_hole_cards(True)
+            first = False
+        elif st.can_kill_hand():
+            marked = list(st.hand_killing_indices)
+            for j in range(2):
+                ctx.check(st.can_kill_hand(j) == (j in marked), 'kill-offered-for-a-hand-not-marked', lambda: f'player {j} marked {marked}')
+            C.call(ctx, st.kill_hand)
+        else:
+            ctx.fail('stuck')
+    # the shown part of the hand decides: with one card shown the player plays that card + board
+    if 'partial-show' not in ctx.covered:
+        ctx.check(list(st.payoffs) == list(ref.payoffs), 'payoffs-differ-from-everybody-shows', lambda: f'{st.payoffs} vs {ref.payoffs}')
+    else:
+        from pokerkit.hands import StandardHighHand
+        shown = [tuple(c for c, s_ in zip(st.hole_cards[i], st.hole_card_statuses[i]) if s_ and c) for i in range(2)]
+        hs = [StandardHighHand.from_game_or_none(sh, board) for sh in shown]
+        best = max(h for h in hs if h is not None)
+        winners = [i for i in range(2) if hs[i] is not None and hs[i] == best]
+        for i in range(2):
+            if i in winners:
+                ctx.check(st.payoffs[i] > 0 or len(winners) == 2, 'winner-with-a-partly-shown-hand-lost-the-pot',
+                          lambda: f'shown {shown} board {board} payoffs {st.payoffs}')
+    ctx.check(sum(st.payoffs) == 0, 'chips-vanished', lambda: f'{st.payoffs}')
+    ctx.cover('done')
+
+
 def jobs(tier: str, seed: int) -> list[dict]:
     from engine.partition import weak_orders, tri
     deck = 'identity' if not seed else f'rot{seed % 52}'
@@ -240,6 +314,8 @@ def jobs(tier: str, seed: int) -> list[dict]:
         out.append(dict(name=f'order/{code}/n{n}/{script}/s{stacks[0]}-{stacks[-1]}/tournament', fn='h_order', traced=False,
                         params=dict(code=code, n=n, script=script, stacks=stacks, mode='T'), budget_s=B,
                         must_cover=['done', 'tournament-show']))
+    out.append(dict(name='partial-show/real-cards', fn='h_partial_show', traced=False, params={}, budget_s=B,
+                    must_cover=['done', 'partial-show']))
     if tier == 'thorough':
         for k, part in enumerate(w3):
             out.append(dict(name=f'checkdown/n3/hilo/T/w{k}', fn='h_muck',
